@@ -308,6 +308,74 @@ def st_simplify(shape: int, x0: int, x1: int, x2: int, x3: int) -> bool:
     return list(s._flatten()) == flat
 
 
+def _tree(idx, xs):
+    """A nested keyed/tuple structure drawn deterministically from `idx` (depth <= 4), its leaves taken from xs in order."""
+    import random
+
+    rng = random.Random(idx * 7919 + 13)
+    used = [0]
+
+    def leaf():
+        v = xs[used[0] % len(xs)] + 1000 * (used[0] // len(xs))
+        used[0] += 1
+        return v
+
+    def node(depth, in_tuple=False):
+        r = rng.random()
+        if depth >= 4 or r < 0.3:
+            return leaf()
+        if r < 0.45 and not in_tuple:
+            return tuple(node(depth + 1, True) for _ in range(rng.choice([1, 2, 2])))
+        keys = rng.choice([["root"], ["root"], ["root"], ["a"], ["root", "a"], ["a", "b"], ["root", "a", "b"]])
+        kw = {k: node(depth + 1) for k in keys}
+        return Structured(kw.pop("root"), **kw) if "root" in kw else Structured(**kw)
+
+    keys = rng.choice([["root"], ["root"], ["a"], ["root", "a"], ["a", "b"]])
+    kw = {k: node(1) for k in keys}
+    return Structured(kw.pop("root"), **kw) if "root" in kw else Structured(**kw)
+
+
+def _leaves(o):
+    if isinstance(o, Structured):
+        return [w for v in o._structure.values() for w in _leaves(v)]
+    if isinstance(o, tuple):
+        return [w for v in o for w in _leaves(v)]
+    return [o]
+
+
+NTREES = 400
+
+
+def st_simplify_deep(idx: int, x0: int, x1: int, x2: int) -> bool:
+    """
+    pre: 0 <= idx < 400 and idx % 8 == __SHARD__
+    post: _
+    """
+    # simplification is idempotent and leaf-preserving for EVERY nesting: trees drawn from a generator, leaves symbolic
+    idx = _pick(idx, 0, 399)
+    xs = [x0, x1, x2]
+    s = _tree(idx, xs)
+    flat = _leaves(s)
+    a = s._simplify()
+    if _leaves(a) != flat or _leaves(s) != flat:
+        return False
+    if isinstance(a, Structured):
+        b = a._simplify()
+        if _leaves(b) != flat or _skel(b) != _skel(a):
+            return False
+    # the in-place form (which keeps the outermost wrapper) reaches its fixed point in one step as well, on the object itself
+    t = _tree(idx, xs)
+    r = t._simplify(unwrap=False, inplace=True)
+    if r is not t or _leaves(t) != flat:
+        return False
+    sk = _skel(t)
+    t._simplify(unwrap=False, inplace=True)
+    if _skel(t) != sk or _leaves(t) != flat:
+        return False
+    c = s._simplify(unwrap=False)
+    return _skel(c) == sk and _leaves(c) == flat
+
+
 def st_update_merge(shape: int, x0: int, x1: int, x2: int, x3: int, y: int) -> bool:
     """
     pre: 0 <= shape < 9
@@ -488,4 +556,9 @@ def sf_shards(lo, hi, npool, orderings=("degree", "none", "sort")):
 
 
 def explain(fname, call):
+    if fname == "st_simplify_deep" and call and call.get("args"):
+        try:
+            return f"container law st_simplify_deep (simplification idempotent and leaf-preserving, also in place) fails for the nesting {_skel(_tree(call['args'][0], [1, 2, 3]))}"
+        except Exception:
+            pass
     return f"container law {fname} fails for {call}"
